@@ -138,4 +138,426 @@ theorem local_mapSub (c : Cells) (g : Sub) (f : σ → σ) :
   simp only [mapSub, hx, if_true]
   rw [hs x hx]
 
+
+/-! ### the cells of a subgrid -/
+
+theorem inSub_gcell {c : Cells} (g : Sub) {p : Loc} (hp : validLoc c p = true) :
+    inSub c g (gcell c g p) = true := by
+  rw [validLoc_iff] at hp
+  simp only [inSub, gcell, Bool.and_eq_true]
+  refine ⟨⟨⟨⟨⟨?_, ?_⟩, ?_⟩, ?_⟩, ?_⟩, ?_⟩ <;> apply decide_eq_true <;> omega
+
+theorem mul_le_lt_unique {c a a' x : Nat} (h1 : a * c ≤ x) (h2 : x < a * c + c) (h1' : a' * c ≤ x)
+    (h2' : x < a' * c + c) : a = a' := by
+  rcases Nat.lt_trichotomy a a' with h | h | h
+  · have : (a + 1) * c ≤ a' * c := Nat.mul_le_mul_right c h
+    rw [Nat.add_mul, Nat.one_mul] at this; omega
+  · exact h
+  · have : (a' + 1) * c ≤ a * c := Nat.mul_le_mul_right c h
+    rw [Nat.add_mul, Nat.one_mul] at this; omega
+
+theorem inSub_unique {c : Cells} {g g' : Sub} {x : Cell} (h : inSub c g x = true)
+    (h' : inSub c g' x = true) : g = g' := by
+  simp only [inSub, Bool.and_eq_true] at h h'
+  obtain ⟨a, b, d⟩ := g
+  obtain ⟨a', b', d'⟩ := g'
+  have e1 := mul_le_lt_unique (of_decide_eq_true h.1.1.1.1.1) (of_decide_eq_true h.1.1.1.1.2)
+    (of_decide_eq_true h'.1.1.1.1.1) (of_decide_eq_true h'.1.1.1.1.2)
+  have e2 := mul_le_lt_unique (of_decide_eq_true h.1.1.1.2) (of_decide_eq_true h.1.1.2)
+    (of_decide_eq_true h'.1.1.1.2) (of_decide_eq_true h'.1.1.2)
+  have e3 := mul_le_lt_unique (of_decide_eq_true h.1.2) (of_decide_eq_true h.2)
+    (of_decide_eq_true h'.1.2) (of_decide_eq_true h'.2)
+  simp only at e1 e2 e3
+  subst e1 e2 e3; rfl
+
+/-- the cells of the subgrids a task touches -/
+def fpCells (L : Layout) (c : Cells) (t : Task) (x : Cell) : Prop :=
+  ∃ h ∈ footprint L t, inSub c h x = true
+
+theorem fpCells_disjoint {L : Layout} {c : Cells} {a b : Task} (h : ¬ conflict L a b) (x : Cell) :
+    fpCells L c a x → fpCells L c b x → False := by
+  rintro ⟨h1, hm1, hi1⟩ ⟨h2, hm2, hi2⟩
+  have := inSub_unique hi1 hi2
+  subst this
+  exact h ⟨h1, hm1, hm2⟩
+
+/-! ### the calls of a task stay inside its footprint -/
+
+theorem mem_self_footprint (L : Layout) (t : Task) : t.g ∈ footprint L t := by
+  obtain ⟨g, sl⟩ := t
+  rcases sl with _ | ax | ax | _ | _ | _ | ax | ax | _ | _ <;> simp only [footprint] <;>
+    (try cases ngbUp L ax g) <;> simp
+
+theorem innerOps_cells (L : Layout) (c : Cells) (t : Task) :
+    ∀ op ∈ innerOps c t.g, ∀ x ∈ opCells op, fpCells L c t x := by
+  intro op hop x hx
+  simp only [innerOps, List.mem_flatMap, List.mem_map] at hop
+  obtain ⟨ax, _, ⟨p, q⟩, hpq, rfl⟩ := hop
+  rw [mem_innerLoc] at hpq
+  obtain ⟨hp, hlt, rfl⟩ := hpq
+  simp only [opCells, List.mem_cons, List.not_mem_nil, or_false] at hx
+  refine ⟨t.g, mem_self_footprint L t, ?_⟩
+  rcases hx with rfl | rfl
+  · exact inSub_gcell _ hp
+  · exact inSub_gcell _ (validLoc_setCoord hp ax hlt)
+
+theorem downOps_cells (L : Layout) (c : Cells) (hc : 0 < c.cx ∧ 0 < c.cy ∧ 0 < c.cz) (ax : Axis)
+    (t : Task) : ∀ op ∈ downOps c ax t.g, ∀ x ∈ opCells op, fpCells L c t x := by
+  have hcl : 0 < clen c ax := by cases ax <;> simp [clen, hc]
+  intro op hop x hx
+  simp only [downOps, ghostLoc, List.mem_map] at hop
+  obtain ⟨p, hp, rfl⟩ := hop
+  rw [mem_faceLocs c ax _ (by simpa using hcl)] at hp
+  simp only [opCells, List.mem_cons, List.not_mem_nil, or_false] at hx
+  subst hx
+  exact ⟨t.g, mem_self_footprint L t, inSub_gcell _ hp.1⟩
+
+theorem upOps_cells (L : Layout) (c : Cells) (hc : 0 < c.cx ∧ 0 < c.cy ∧ 0 < c.cz) (ax : Axis)
+    (t : Task) (hs : t.slot = .gradUp ax ∨ t.slot = .fluxUp ax) :
+    ∀ op ∈ upOps L c ax t.g, ∀ x ∈ opCells op, fpCells L c t x := by
+  have hcl : 0 < clen c ax := by cases ax <;> simp [clen, hc]
+  obtain ⟨g, sl⟩ := t
+  intro op hop x hx
+  have hfp : footprint L ⟨g, sl⟩ = (match ngbUp L ax g with | some n => [g, n] | none => [g]) := by
+    rcases hs with h | h <;> simp only at h <;> subst h <;> rfl
+  unfold upOps at hop
+  simp only at hop
+  cases hn : ngbUp L ax g with
+  | none =>
+    rw [hn] at hop
+    simp only [ghostLoc, List.mem_map, if_true] at hop
+    obtain ⟨p, hp, rfl⟩ := hop
+    rw [mem_faceLocs c ax _ (by omega)] at hp
+    simp only [opCells, List.mem_cons, List.not_mem_nil, or_false] at hx
+    subst hx
+    exact ⟨g, by rw [hfp, hn]; simp, inSub_gcell _ hp.1⟩
+  | some n =>
+    rw [hn] at hop
+    simp only [List.mem_map] at hop
+    obtain ⟨⟨p, q⟩, hpq, rfl⟩ := hop
+    rw [mem_outerLoc c ax hcl] at hpq
+    obtain ⟨hp, _, rfl⟩ := hpq
+    simp only [opCells, List.mem_cons, List.not_mem_nil, or_false] at hx
+    rcases hx with rfl | rfl
+    · exact ⟨g, by rw [hfp, hn]; simp, inSub_gcell _ hp⟩
+    · exact ⟨n, by rw [hfp, hn]; simp, inSub_gcell _ (validLoc_setCoord hp ax hcl)⟩
+
+theorem local_execTask (flux : FluxFn ℝ) (pr : Params ℝ) (limiter : HV ℝ → Grad ℝ)
+    (predict : HV ℝ → Q ℝ) (L : Layout) (c : Cells) (hc : 0 < c.cx ∧ 0 < c.cy ∧ 0 < c.cz)
+    (t : Task) : Local (fpCells L c t) (execTask flux pr limiter predict L c t) := by
+  have hmap : ∀ f : HV ℝ → HV ℝ, Local (fpCells L c t) (mapSub c t.g f) := fun f =>
+    local_mono (fun x hx => ⟨t.g, mem_self_footprint L t, hx⟩) (local_mapSub c t.g f)
+  obtain ⟨g, sl⟩ := t
+  rcases sl with _ | ax | ax | _ | _ | _ | ax | ax | _ | _ <;>
+    (show Local _ (fun s => execTask flux pr limiter predict L c _ s)) <;> simp only [execTask]
+  · exact local_runOps _ _ _ (innerOps_cells L c ⟨g, .gradInt⟩)
+  · exact local_runOps _ _ _ (upOps_cells L c hc ax ⟨g, .gradUp ax⟩ (Or.inl rfl))
+  · exact local_runOps _ _ _ (downOps_cells L c hc ax ⟨g, .gradDown ax⟩)
+  · exact hmap _
+  · exact hmap _
+  · exact local_runOps _ _ _ (innerOps_cells L c ⟨g, .fluxInt⟩)
+  · exact local_runOps _ _ _ (upOps_cells L c hc ax ⟨g, .fluxUp ax⟩ (Or.inr rfl))
+  · exact local_runOps _ _ _ (downOps_cells L c hc ax ⟨g, .fluxDown ax⟩)
+  · exact hmap _
+  · exact hmap _
+
+/-! ### tasks that the data dependences do not order commute -/
+
+/-- the calls of a sweep task -/
+def taskOps (L : Layout) (c : Cells) (t : Task) : List Op :=
+  match t.slot with
+  | .gradInt | .fluxInt => innerOps c t.g
+  | .gradUp ax | .fluxUp ax => upOps L c ax t.g
+  | .gradDown ax | .fluxDown ax => downOps c ax t.g
+  | _ => []
+
+theorem execTask_grad (flux : FluxFn ℝ) (pr : Params ℝ) (limiter : HV ℝ → Grad ℝ)
+    (predict : HV ℝ → Q ℝ) (L : Layout) (c : Cells) (t : Task) (h : phase t.slot = 0)
+    (s : Grid (HV ℝ)) :
+    execTask flux pr limiter predict L c t s = runOps (gradPhys pr) s (taskOps L c t) := by
+  obtain ⟨g, sl⟩ := t
+  rcases sl with _ | ax | ax | _ | _ | _ | ax | ax | _ | _ <;> simp [phase] at h <;> rfl
+
+theorem execTask_flux (flux : FluxFn ℝ) (pr : Params ℝ) (limiter : HV ℝ → Grad ℝ)
+    (predict : HV ℝ → Q ℝ) (L : Layout) (c : Cells) (t : Task) (h : phase t.slot = 3)
+    (s : Grid (HV ℝ)) :
+    execTask flux pr limiter predict L c t s = runOps (fluxPhys flux pr) s (taskOps L c t) := by
+  obtain ⟨g, sl⟩ := t
+  rcases sl with _ | ax | ax | _ | _ | _ | ax | ax | _ | _ <;> simp [phase] at h <;> rfl
+
+theorem runOps_append {P : Phys σ κ} (s : Grid σ) (a b : List Op) :
+    runOps P (runOps P s a) b = runOps P s (a ++ b) := by
+  simp only [runOps, List.foldl_append]
+
+/-- per-cell tasks (phases 1, 2, 4, 5) touch only their own subgrid -/
+theorem footprint_of_map_phase (L : Layout) (t : Task)
+    (h : phase t.slot ≠ 0 ∧ phase t.slot ≠ 3) : footprint L t = [t.g] := by
+  obtain ⟨g, sl⟩ := t
+  rcases sl with _ | ax | ax | _ | _ | _ | ax | ax | _ | _ <;> simp [phase] at h <;> rfl
+
+theorem slot_eq_of_phase (a b : Slot) (h : phase a = phase b) (h0 : phase a ≠ 0 ∧ phase a ≠ 3) :
+    a = b := by
+  rcases a with _ | ax | ax | _ | _ | _ | ax | ax | _ | _ <;>
+    rcases b with _ | ax' | ax' | _ | _ | _ | ax' | ax' | _ | _ <;> simp [phase] at h h0 ⊢
+
+/-- **tasks that are not ordered by the data dependences commute** -/
+theorem execTask_comm (flux : FluxFn ℝ) (pr : Params ℝ) (limiter : HV ℝ → Grad ℝ)
+    (predict : HV ℝ → Q ℝ) (L : Layout) (c : Cells) (hc : 0 < c.cx ∧ 0 < c.cy ∧ 0 < c.cz)
+    (a b : Task) (h1 : ¬ mustPrecede L a b) (h2 : ¬ mustPrecede L b a) (s : Grid (HV ℝ)) :
+    execTask flux pr limiter predict L c b (execTask flux pr limiter predict L c a s)
+      = execTask flux pr limiter predict L c a (execTask flux pr limiter predict L c b s) := by
+  by_cases hconf : conflict L a b
+  · have hconf' : conflict L b a := by obtain ⟨h, x, y⟩ := hconf; exact ⟨h, y, x⟩
+    have hph : phase a.slot = phase b.slot := by
+      have n1 : ¬ phase a.slot < phase b.slot := fun h => h1 ⟨h, hconf⟩
+      have n2 : ¬ phase b.slot < phase a.slot := fun h => h2 ⟨h, hconf'⟩
+      omega
+    by_cases h0 : phase a.slot = 0
+    · rw [execTask_grad _ _ _ _ _ _ a h0, execTask_grad _ _ _ _ _ _ b (hph ▸ h0),
+        execTask_grad _ _ _ _ _ _ a h0, execTask_grad _ _ _ _ _ _ b (hph ▸ h0), runOps_append,
+        runOps_append]
+      exact runOps_perm (gradAccum pr) List.perm_append_comm s
+    · by_cases h3 : phase a.slot = 3
+      · rw [execTask_flux _ _ _ _ _ _ a h3, execTask_flux _ _ _ _ _ _ b (hph ▸ h3),
+          execTask_flux _ _ _ _ _ _ a h3, execTask_flux _ _ _ _ _ _ b (hph ▸ h3), runOps_append,
+          runOps_append]
+        exact runOps_perm (fluxAccum flux pr) List.perm_append_comm s
+      · -- per-cell tasks of the same phase on a common subgrid: the same task
+        have fa := footprint_of_map_phase L a ⟨h0, h3⟩
+        have fb := footprint_of_map_phase L b ⟨hph ▸ h0, hph ▸ h3⟩
+        obtain ⟨h, ha, hb⟩ := hconf
+        rw [fa] at ha; rw [fb] at hb
+        simp only [List.mem_cons, List.not_mem_nil, or_false] at ha hb
+        have hs := slot_eq_of_phase a.slot b.slot hph ⟨h0, h3⟩
+        have : a = b := by
+          obtain ⟨ga, sa⟩ := a; obtain ⟨gb, sb⟩ := b
+          simp only at ha hb hs; subst ha hb hs; rfl
+        rw [this]
+  · exact (local_comm (local_execTask flux pr limiter predict L c hc b)
+      (local_execTask flux pr limiter predict L c hc a)
+      (fun x hb ha => fpCells_disjoint hconf x ha hb) s)
+
+
+/-! ### every linear extension of the task graph respects the data dependences -/
+
+/-- `p` is one of the tasks `c` waits for -/
+def Par (L : Layout) (p c : Task) : Prop := p ∈ parents L c
+
+/-- `a` is an ancestor of `b` in the task graph -/
+abbrev Anc (L : Layout) : Task → Task → Prop := Relation.TransGen (Par L)
+
+theorem phase_lt_of_parent {L : Layout} {p c : Task} (h : p ∈ parents L c) :
+    phase p.slot < phase c.slot := by
+  obtain ⟨g, sc⟩ := c
+  have hall : (parents L ⟨g, sc⟩).all (fun p => decide (phase p.slot < phase sc)) = true := by
+    rcases sc with _ | ax | ax | _ | _ | _ | ax | ax | _ | _ <;>
+      simp only [parents, gradDownTask, fluxDownTask, optTask] <;> (repeat' split) <;> simp [phase]
+  rw [List.all_eq_true] at hall
+  exact of_decide_eq_true (hall p h)
+
+/-- the per-subgrid chain limiter → prediction → internal flux sweep → conserved update →
+primitive update -/
+def spine (h : Sub) : Nat → Task
+  | 1 => ⟨h, .limiter⟩
+  | 2 => ⟨h, .predict⟩
+  | 3 => ⟨h, .fluxInt⟩
+  | 4 => ⟨h, .updCons⟩
+  | _ => ⟨h, .updPrim⟩
+
+theorem spine_step (L : Layout) (h : Sub) (k : Nat) (h1 : 1 ≤ k) (h4 : k ≤ 4) :
+    Par L (spine h k) (spine h (k + 1)) := by
+  have : k = 1 ∨ k = 2 ∨ k = 3 ∨ k = 4 := by omega
+  rcases this with rfl | rfl | rfl | rfl <;> simp [Par, spine, parents]
+
+theorem spine_chain (L : Layout) (h : Sub) (j d : Nat) (h1 : 1 ≤ j) (h5 : j + d ≤ 5) :
+    Relation.ReflTransGen (Par L) (spine h j) (spine h (j + d)) := by
+  induction d with
+  | zero => exact Relation.ReflTransGen.refl
+  | succ d ih =>
+    exact (ih (by omega)).tail (spine_step L h (j + d) (by omega) (by omega))
+
+theorem mem_footprint_iff (L : Layout) (t : Task) (h : Sub) :
+    h ∈ footprint L t ↔ h = t.g ∨
+      ∃ ax, (t.slot = .gradUp ax ∨ t.slot = .fluxUp ax) ∧ ngbUp L ax t.g = some h := by
+  obtain ⟨g, sl⟩ := t
+  rcases sl with _ | ax | ax | _ | _ | _ | ax | ax | _ | _ <;> simp only [footprint]
+  case gradUp =>
+    cases hn : ngbUp L ax g
+    · simp [hn]
+    · rename_i n
+      simp only [List.mem_cons, List.not_mem_nil, or_false, Slot.gradUp.injEq, reduceCtorEq,
+        or_false, exists_eq_left']
+      constructor
+      · rintro (rfl | rfl)
+        · exact Or.inl rfl
+        · exact Or.inr hn
+      · rintro (rfl | h')
+        · exact Or.inl rfl
+        · rw [hn] at h'; exact Or.inr (Option.some.inj h').symm
+  case fluxUp =>
+    cases hn : ngbUp L ax g
+    · simp [hn]
+    · rename_i n
+      simp only [List.mem_cons, List.not_mem_nil, or_false, Slot.fluxUp.injEq, reduceCtorEq,
+        false_or, exists_eq_left']
+      constructor
+      · rintro (rfl | rfl)
+        · exact Or.inl rfl
+        · exact Or.inr hn
+      · rintro (rfl | h')
+        · exact Or.inl rfl
+        · rw [hn] at h'; exact Or.inr (Option.some.inj h').symm
+  all_goals simp
+
+/-- every gradient task that touches subgrid `h` is waited for by the slope limiter of `h` -/
+theorem grad_parent_of_limiter {L : Layout} {a : Task} {h : Sub} (ha : exists_ L a = true)
+    (hp : phase a.slot = 0) (hf : h ∈ footprint L a) : Par L a ⟨h, .limiter⟩ := by
+  obtain ⟨g, sl⟩ := a
+  simp only [exists_, Bool.and_eq_true] at ha
+  obtain ⟨hg, hs⟩ := ha
+  rw [mem_footprint_iff] at hf
+  rcases sl with _ | ax | ax | _ | _ | _ | ax | ax | _ | _ <;> simp [phase] at hp
+  · rcases hf with rfl | ⟨ax, h' | h', _⟩
+    · simp [Par, parents]
+    · simp at h'
+    · simp at h'
+  · rcases hf with rfl | ⟨ax', h' | h', hn⟩
+    · cases ax <;> simp [Par, parents]
+    · simp only [Slot.gradUp.injEq] at h'; subst h'
+      have hd := ngbUp_ngbDown hg hn
+      have : gradDownTask L ax h = ⟨g, .gradUp ax⟩ := by simp [gradDownTask, hd]
+      cases ax <;> simp [Par, parents, this]
+    · simp at h'
+  · simp only [slotExists, Option.isNone_iff_eq_none] at hs
+    rcases hf with rfl | ⟨ax', h' | h', _⟩
+    · have : gradDownTask L ax h = ⟨h, .gradDown ax⟩ := by simp [gradDownTask, hs]
+      cases ax <;> simp [Par, parents, this]
+    · simp at h'
+    · simp at h'
+
+/-- every flux task that touches subgrid `h` waits for the prediction of `h` and is waited for by
+the conserved update of `h` -/
+theorem flux_between {L : Layout} {a : Task} {h : Sub} (ha : exists_ L a = true)
+    (hp : phase a.slot = 3) (hf : h ∈ footprint L a) :
+    Par L ⟨h, .predict⟩ a ∧ Par L a ⟨h, .updCons⟩ := by
+  obtain ⟨g, sl⟩ := a
+  simp only [exists_, Bool.and_eq_true] at ha
+  obtain ⟨hg, hs⟩ := ha
+  rw [mem_footprint_iff] at hf
+  rcases sl with _ | ax | ax | _ | _ | _ | ax | ax | _ | _ <;> simp [phase] at hp
+  · rcases hf with rfl | ⟨ax, h' | h', _⟩
+    · simp [Par, parents]
+    · simp at h'
+    · simp at h'
+  · rcases hf with rfl | ⟨ax', h' | h', hn⟩
+    · constructor
+      · simp [Par, parents]
+      · cases ax <;> simp [Par, parents]
+    · simp at h'
+    · simp only [Slot.fluxUp.injEq] at h'; subst h'
+      have hd := ngbUp_ngbDown hg hn
+      have : fluxDownTask L ax h = ⟨g, .fluxUp ax⟩ := by simp [fluxDownTask, hd]
+      constructor
+      · simp [Par, parents, optTask, hn]
+      · cases ax <;> simp [Par, parents, this]
+  · simp only [slotExists, Option.isNone_iff_eq_none] at hs
+    rcases hf with rfl | ⟨ax', h' | h', _⟩
+    · have : fluxDownTask L ax h = ⟨h, .fluxDown ax⟩ := by simp [fluxDownTask, hs]
+      constructor
+      · simp [Par, parents]
+      · cases ax <;> simp [Par, parents, this]
+    · simp at h'
+    · simp at h'
+
+/-- a per-cell task that touches `h` is the task of `h` of its phase -/
+theorem eq_spine {L : Layout} {a : Task} {h : Sub} (hp : phase a.slot ≠ 0 ∧ phase a.slot ≠ 3)
+    (hf : h ∈ footprint L a) : a = spine h (phase a.slot) := by
+  rw [footprint_of_map_phase L a hp] at hf
+  simp only [List.mem_cons, List.not_mem_nil, or_false] at hf
+  obtain ⟨g, sl⟩ := a
+  simp only at hf; subst hf
+  rcases sl with _ | ax | ax | _ | _ | _ | ax | ax | _ | _ <;> simp [phase] at hp <;> rfl
+
+theorem phase_le_five (s : Slot) : phase s ≤ 5 := by
+  rcases s with _ | ax | ax | _ | _ | _ | ax | ax | _ | _ <;> simp [phase]
+
+/-- **conflicting tasks of different phases are ordered by the task graph** -/
+theorem anc_of_mustPrecede {L : Layout} {a b : Task} (ha : exists_ L a = true)
+    (hb : exists_ L b = true) (h : mustPrecede L a b) : Anc L a b := by
+  obtain ⟨hlt, hsub, hfa, hfb⟩ := h
+  have hb5 := phase_le_five b.slot
+  by_cases hb3 : phase b.slot = 3
+  · -- b is a flux task: prediction of hsub → b
+    have hpb := (flux_between hb hb3 hfb).1
+    by_cases ha0 : phase a.slot = 0
+    · have h1 : Par L a (spine hsub 1) := grad_parent_of_limiter ha ha0 hfa
+      have h2 := spine_chain L hsub 1 1 (by omega) (by omega)
+      exact ((Relation.TransGen.single h1).trans_left h2).tail hpb
+    · have ea := eq_spine (L := L) (a := a) ⟨ha0, by omega⟩ hfa
+      have h2 := spine_chain L hsub (phase a.slot) (2 - phase a.slot) (by omega) (by omega)
+      rw [show phase a.slot + (2 - phase a.slot) = 2 by omega] at h2
+      rw [ea]
+      exact Relation.TransGen.trans_right h2 (Relation.TransGen.single hpb)
+  · have hb0 : phase b.slot ≠ 0 := by omega
+    have eb := eq_spine (L := L) (a := b) ⟨hb0, hb3⟩ hfb
+    rw [eb]
+    by_cases ha0 : phase a.slot = 0
+    · have h1 : Par L a (spine hsub 1) := grad_parent_of_limiter ha ha0 hfa
+      have h2 := spine_chain L hsub 1 (phase b.slot - 1) (by omega) (by omega)
+      rw [show 1 + (phase b.slot - 1) = phase b.slot by omega] at h2
+      exact (Relation.TransGen.single h1).trans_left h2
+    · by_cases ha3 : phase a.slot = 3
+      · have h1 : Par L a (spine hsub 4) := (flux_between ha ha3 hfa).2
+        have h2 := spine_chain L hsub 4 (phase b.slot - 4) (by omega) (by omega)
+        rw [show 4 + (phase b.slot - 4) = phase b.slot by omega] at h2
+        exact (Relation.TransGen.single h1).trans_left h2
+      · have ea := eq_spine (L := L) (a := a) ⟨ha0, ha3⟩ hfa
+        rw [ea]
+        have h1 := spine_step L hsub (phase a.slot) (by omega) (by omega)
+        have h2 := spine_chain L hsub (phase a.slot + 1) (phase b.slot - (phase a.slot + 1))
+          (by omega) (by omega)
+        rw [show phase a.slot + 1 + (phase b.slot - (phase a.slot + 1)) = phase b.slot by omega]
+          at h2
+        exact (Relation.TransGen.single h1).trans_left h2
+
+/-- in a linear extension of the task graph an ancestor comes before its descendant -/
+theorem idx_lt_of_anc {L : Layout} {sched : List Task} (hs : LinExt L sched) {a b : Task}
+    (hb : exists_ L b = true) (h : Anc L a b) : sched.idxOf a < sched.idxOf b := by
+  have step : ∀ p c, exists_ L c = true → Par L p c → sched.idxOf p < sched.idxOf c := by
+    intro p c hc hpc
+    have hp : exists_ L p = true := parents_exist L c hc p hpc
+    have hpm : p ∈ sched := (hs.all p).mpr hp
+    have hcm : c ∈ sched := (hs.all c).mpr hc
+    have hpi := List.idxOf_lt_length_iff.mpr hpm
+    have hci := List.idxOf_lt_length_iff.mpr hcm
+    by_contra hnot
+    have hne : sched.idxOf c ≠ sched.idxOf p := by
+      intro e
+      have e1 : sched[sched.idxOf c] = c := List.getElem_idxOf hci
+      have e2 : sched[sched.idxOf p] = p := List.getElem_idxOf hpi
+      have : c = p := by rw [← e1, ← e2]; simp only [e]
+      have hlt := phase_lt_of_parent hpc
+      rw [this] at hlt; omega
+    have hlt : sched.idxOf c < sched.idxOf p := by omega
+    have := (List.pairwise_iff_getElem.mp hs.order) _ _ hci hpi hlt
+    rw [List.getElem_idxOf hci, List.getElem_idxOf hpi] at this
+    exact this hpc
+  induction h with
+  | single hab => exact step _ _ hb hab
+  | tail hac hcb ih =>
+    have hc := parents_exist L _ hb _ hcb
+    exact (ih hc).trans (step _ _ hb hcb)
+
+/-- **every linear extension of C07's task graph respects the data dependences** -/
+theorem linExt_respects {L : Layout} {sched : List Task} (hs : LinExt L sched) :
+    Respects L sched := by
+  unfold Respects
+  rw [List.pairwise_iff_getElem]
+  intro i j hi hj hij hmp
+  have hei : exists_ L sched[i] = true := (hs.all _).mp (List.getElem_mem hi)
+  have hej : exists_ L sched[j] = true := (hs.all _).mp (List.getElem_mem hj)
+  have := idx_lt_of_anc hs hei (anc_of_mustPrecede hej hei hmp)
+  rw [hs.nodup.idxOf_getElem, hs.nodup.idxOf_getElem] at this
+  omega
+
 end CMacVerif.HydroSchedule
